@@ -6,11 +6,11 @@ from checks import ddcommon
 
 META = {
     "title": "ZBDD set-family operations",
-    "technique": "Rocq proofs over a Gallina model of the ZBDD set operations (union, intsec, diff, subset0/1, change, make_node, singleton, empty, base) on well-formed zero-suppressed tables against finite-family semantics, and of the consistency between the family view and the Boolean view; correspondence: all 256 families over 3 variables on the real ZBDD manager, decided by the extracted family interpreter famz",
+    "technique": "Rocq proofs over a Gallina model of the ZBDD set operations (coq/DD/ZbddOps.v: reduce with the zero-suppression rule + get_or_insert, apply_union/apply_intsec/apply_diff with their terminal cases, operand normalisation and three-way level comparison, subset<VAL> for subset0/subset1/change incl. the node created above the operand, singleton, make_node, empty, base; abstract lossy apply cache keyed by (operator, edges, variable number)) against the documented set expressions (coq/DD/FamSpec.v), and of the consistency between the family view and the Boolean view (bool_view), also for tables that grow (add_vars); correspondence: the real ZBDD manager's results are lifted to snapshots and compared by the extracted famz/feq_b with the extracted set expressions, and the extracted model is replayed on the same table and operand edges (same family and same edge required)",
     "category": "proof",
     "design_ref": "DESIGN.md section 5, C09",
-    "level_text": "Theorems in coq/Props/C09.v. Tie to the code: all 256 families over 3 variables under a seed-chosen variable order (all 6 in thorough): subset0/subset1/change for every variable, union/intsec/diff for every ordered pair, make_node for every legal (var, hi, lo), singleton/empty/base; random families over up to 7 variables; histories that add variables between operations. Every result is lifted to a snapshot, its family is computed by the extracted famz and compared with the set expression of the documentation evaluated on the operands' families; the Boolean view (extracted semz over all levels) of every handle must be the characteristic function of its family, also after variables were added.",
-    "level_note": "Trusted: Coq kernel, extraction, OCaml driver (set expressions on sorted integer lists), Rust harness.",
+    "level_text": "Theorems in coq/Props/C09.v (21, all closed under the global context): for every well-formed ZBDD snapshot with both terminals (ZbddOK, decided by zbdd_ok_b), every lossy cache, every operand order and fuel >= nlevels+1 each of union/intsec/diff/subset0/subset1/change/singleton/empty/base/make_node returns an edge, only extends the table, keeps it well-formed (zero-suppressed, unique), keeps the cache valid, and the list famz computes for the result has exactly the members of the documented set expression of the operands' lists (C09_apply_sound, C09_subset_sound, C09_singleton_sound, C09_make_node_sound, C09_empty_sound, C09_base_sound, C09_zmk_node_ok); families are duplicate-free lists of strictly increasing level lists (C09_fam_members, C09_fam_nodup); C09_bool_view / C09_bool_view_sem_edge: semz over all levels is the characteristic function of the family; C09_extends_fam / C09_grows_fam / C09_grows_bool_view: old edges keep their family when nodes or variables are added and their Boolean view gains 'new variables false'. Tie to the code: all 256 families over 3 variables under two seed-chosen non-identity orders (all 6 in thorough): subset0/subset1/change for every variable, union/intsec/diff for every ordered pair, make_node for every legal (var, hi, lo), singleton/empty/base; set-operation histories over 3..8 variables with add_vars, full reorderings, gc, make_node on the top variable; generic random histories. Every result is lifted to a snapshot; expected family = extracted f_bin/f_sub/f_make_node/f_singleton on the operands' families in the level reading of the snapshot, compared by the extracted feq_b with the extracted famz of the result; the extracted model zapply/zsubset_top/zsingleton/zmake_node/zempty/zbase is run on the lifted table with the operands' real edges (three cache/operand-order instances in rotation) and must return the implementation's edge; the Boolean view (extracted semz) of every handle on every snapshot must equal the extracted fam_bool of its family, also after variables were added.",
+    "level_note": "Families are sets of *levels* in the theorems; the API's variable numbers are mapped through var_to_level by the model (zsubset_top, zsingleton) and by the driver (trusted glue, cross-checked against an independent bitmask oracle). Proof-only (not replayed by the driver): the cache-hit paths with a non-empty cache (the driver starts every model run with an empty or absent cache), grows/add_vars theorems (checked on real snapshots only through the persistence and Boolean-view checks). Not modelled: the parallel recursor (schedule independence is C07), reference counting inside the operations (C05), apply_ite/restrict/symm_diff (C02/C04). Trusted: Coq kernel, extraction, OCaml driver glue (ocaml/zfam.ml), Rust harness, public accessor API.",
 }
 ALLOWED_AXIOMS = ()
 
@@ -77,17 +77,86 @@ def zb_extra(rng, nv, pick, fresh, live):
     return f"{rng.choice(['EMPTY', 'BASE'])} h{d}"
 
 
+def case_set_history(cid, rng, nv, length, slots=16):
+    """set-operation history with a snapshot after every op; the variable order is tracked exactly
+    (only full reorderings are issued) so that make_node can be called on the top variable"""
+    ops = [f"VARS {nv}"]
+    order = list(range(nv))          # level -> variable
+    live = set()
+
+    def pick():
+        return rng.choice(sorted(live))
+
+    def fresh():
+        d = rng.randrange(slots)
+        live.add(d)
+        return d
+
+    for _ in range(length):
+        r = rng.random()
+        if len(live) < 3 or r < 0.08:
+            if nv <= 7 and rng.random() < 0.75:
+                ops.append(f"TT h{fresh()} {nv} {ddgen.rand_tt(rng, nv):x}")
+            elif rng.random() < 0.7:
+                ops.append(f"SINGLETON h{fresh()} {rng.randrange(nv)}")
+            else:
+                ops.append(f"{rng.choice(['EMPTY', 'BASE', 'BASE'])} h{fresh()}")
+        elif r < 0.36:
+            a, b = pick(), pick()
+            ops.append(f"{rng.choice(['UNION', 'INTSEC', 'DIFF'])} h{fresh()} h{a} h{b}")
+        elif r < 0.68:
+            a = pick()
+            ops.append(f"{rng.choice(['SUBSET0', 'SUBSET1', 'CHANGE', 'CHANGE'])} h{fresh()} h{a} {rng.randrange(nv)}")
+        elif r < 0.74:
+            # make_node on the top variable with children that do not mention it
+            top = order[0]
+            a, b = pick(), pick()
+            x, y = slots, slots + 1
+            ops.append(f"SUBSET0 h{x} h{a} {top}")
+            ops.append(f"SUBSET0 h{y} h{b} {top}")
+            ops.append(f"MAKENODE h{fresh()} {top} h{x} h{y}")
+            ops.append(f"DROP h{x}")
+            ops.append(f"DROP h{y}")
+        elif r < 0.78 and nv < 8:
+            k = rng.randrange(1, 3)
+            ops.append(f"VARS {k}")
+            order += list(range(nv, nv + k))
+            nv += k
+        elif r < 0.84:
+            rng.shuffle(order)
+            ops.append("ORDER " + " ".join(map(str, order)))
+        elif r < 0.88:
+            ops.append("GC")
+        elif r < 0.93:
+            a = pick()
+            ops.append(f"DROP h{a}")
+            live.discard(a)
+        elif r < 0.96 and nv <= 7:
+            ops.append(f"EVAL h{pick()}")
+        else:
+            a = pick()
+            ops.append(f"CLONE h{fresh()} h{a}")
+    ops.append("SNAP")
+    return (ddgen.header(cid, "zbdd", cap=1 << 14, cache=rng.choice([1, 2, 16, 1 << 10]), snap_each=True), ops)
+
+
 def gen_cases(ctx):
     rng = random.Random(ctx.seed * 7919 + 9)
     thorough = ctx.tier == "thorough"
     cases = []
     cid = 0
-    for order in (ddgen.PERMS3 if thorough else [rng.choice(ddgen.PERMS3)]):
+    # quick: two non-identity orders, one of them a rotation (variable numbers and level numbers
+    # differ for every variable), so that anything keyed by a level where a variable is meant shows
+    rot = rng.choice([(1, 2, 0), (2, 0, 1)])
+    other = rng.choice([p for p in ddgen.PERMS3 if tuple(p) not in (rot, (0, 1, 2))])
+    for order in (ddgen.PERMS3 if thorough else [list(rot), list(other)]):
         cases.append(case_unary(f"u{cid}", order)); cid += 1
         for op in ("UNION", "INTSEC", "DIFF"):
             cases.append(case_binary(f"b{cid}", order, op)); cid += 1
         cases.append(case_make_node(f"m{cid}", order, rng, 100000 if thorough else 4000)); cid += 1
-    for _ in range(600 if thorough else 60):
+    for _ in range(400 if thorough else 40):
+        cases.append(case_set_history(f"s{cid}", rng, nv=rng.randrange(3, 9), length=60)); cid += 1
+    for _ in range(300 if thorough else 30):
         cases.append(ddgen.case_history(f"h{cid}", "zbdd", rng, nv=rng.randrange(3, 7), length=70, quant=False,
                                         extra_ops=(zb_extra, zb_extra, zb_extra))); cid += 1
     return cases
@@ -96,7 +165,7 @@ def gen_cases(ctx):
 def run(ctx):
     ddcommon.run_dd(
         ctx, ["C09"], gen_cases(ctx),
-        rule="zbdd: 256 families over 3 variables x 3 variables x {subset0, subset1, change}; all 65536 ordered pairs x {union, intsec, diff}; make_node for (sampled) legal (var, hi, lo); singleton/empty/base; one seed-chosen order (quick) / all 6 (thorough); random histories over 3..6 variables mixing set operations with Boolean operations, add_vars, gc and reordering, with the family-view/Boolean-view consistency checked on every snapshot. non-trivial = case with >= 3 ops",
+        rule="zbdd: 256 families over 3 variables x 3 variables x {subset0, subset1, change}; all 65536 ordered pairs x {union, intsec, diff}; make_node for (sampled) legal (var, hi, lo); singleton/empty/base; two seed-chosen non-identity orders incl. a rotation (quick) / all 6 (thorough); set-operation histories over 3..8 variables (random families, add_vars, full reorderings, gc, make_node on the top variable, snapshot after every op) and generic random histories over 3..6 variables mixing set operations with Boolean operations, add_vars, gc and reordering; on every snapshot the family-view/Boolean-view consistency of every handle; every set operation replayed on the extracted model (same edge required). non-trivial = case with >= 3 ops",
         allowed_axioms=ALLOWED_AXIOMS)
 
 
